@@ -164,6 +164,65 @@ def enddef (fmt : Nat) (l : Lay) (vars : List Var) : Int × Option Begins :=
     | none => (NC_EVARSIZE, none)
     | some b => (NC_NOERR, some b)
 
+/-! ### the repaired NC_begins (patch C18-begins-overflow.diff): every addition is preceded by a
+    test against NC_MAX_INT64 and fails with NC_EVARSIZE -/
+
+/-- first loop with `if (len > NC_MAX_INT64 - begin) return NC_EVARSIZE;` before `end_var = begin + len` -/
+def fixedPassG (fmt : Nat) : Nat → List Var → Option (List Nat × Nat)
+  | e, [] => some ([], e)
+  | e, v :: vs =>
+    if v.isRec then fixedPassG fmt e vs
+    else if fmt = 1 ∧ e > NC_MAX_INT then none
+    else
+      let b := rndup e 4
+      if varLen v > NC_MAX_INT64 - b then none
+      else match fixedPassG fmt (b + varLen v) vs with
+        | none => none
+        | some (bs, e') => some (b :: bs, e')
+
+/-- second loop with `if (len > NC_MAX_INT64 - end_var) return NC_EVARSIZE;` before `end_var += len` -/
+def recPassG (fmt : Nat) : Nat → List Var → Option (List Nat × Nat)
+  | e, [] => some ([], e)
+  | e, v :: vs =>
+    if !v.isRec then recPassG fmt e vs
+    else if fmt = 1 ∧ e > NC_MAX_INT then none
+    else if varLen v > NC_MAX_INT64 - e then none
+    else match recPassG fmt (e + varLen v) vs with
+      | none => none
+      | some (bs, e') => some (e :: bs, e')
+
+/-- `if (b % a > 0) { pad = a - b % a; if (pad > NC_MAX_INT64 - b) return NC_EVARSIZE; b += pad; }` -/
+def rndupG (b a : Nat) : Option Nat :=
+  if b % a > 0 then (if a - b % a > NC_MAX_INT64 - b then none else some (b + (a - b % a))) else some b
+
+def ncBeginsG (fmt : Nat) (l : Lay) (vars : List Var) : Option Begins :=
+  match fixedPassG fmt l.beginVar vars with
+  | none => none
+  | some (fb, endFixed) =>
+    -- `if (v_minfree > NC_MAX_INT64 - 3 - end_var) return NC_EVARSIZE;`  (end_var <= NC_MAX_INT64 here)
+    if endFixed + l.vMinfree + 3 > NC_MAX_INT64 then none else
+    let br0 := if 0 < endFixed + l.vMinfree then endFixed + l.vMinfree else 0
+    if br0 > NC_MAX_INT64 - 3 then none else
+    let br1 := rndup br0 4
+    match (if l.rAlign > 1 then rndupG br1 l.rAlign else some br1) with
+    | none => none
+    | some br =>
+      match recPassG fmt br vars with
+      | none => none
+      | some (rb, endRec) =>
+        let recsize0 := endRec - br
+        let recsize := match (vars.filter (·.isRec)).getLast? with
+          | some v => if recsize0 = varLen v then prodl v.dims * v.xsz else recsize0
+          | none => recsize0
+        some { fixed := fb, recs := rb, beginRec := br, recsize := recsize }
+
+def enddefG (fmt : Nat) (l : Lay) (vars : List Var) : Int × Option Begins :=
+  let e := checkVlens fmt vars
+  if e ≠ NC_NOERR then (e, none)
+  else match ncBeginsG fmt l vars with
+    | none => (NC_EVARSIZE, none)
+    | some b => (NC_NOERR, some b)
+
 /-- hdr_put_NC_var: the vsize field -/
 def vsizeField (fmt : Nat) (len : Nat) : Nat :=
   if fmt < 5 then (if len > 4294967292 then 4294967295 else len % 4294967296) else len
